@@ -370,7 +370,8 @@ pub fn campaigns(ctx: &Ctx) -> Stats {
             .prop_map(|(opi, dims, p, e, vseed, tr)| RandRecipe { opi, dims, p, e: (e * 64.0).round() / 64.0, vseed, tr })
             .boxed()
     };
-    st.merge(ctx.run_prop("random-single-operations", total, strat, |r| if numel(&r.dims) <= 1500 { random_case(r) } else { None }));
+    let cap = t.pick(500usize, 1500);
+    st.merge(ctx.run_prop("random-single-operations", total, strat, move |r| if numel(&r.dims) <= cap { random_case(r) } else { None }));
     st
 }
 
